@@ -15,7 +15,8 @@ import (
 
 func init() {
 	Register(&Prop{
-		ID:    "C05",
+		ID:       "C05",
+		NeedsCLI: true,
 		Chunk: 40,
 		Count: func(c *Ctx) int {
 			if c.Thorough() {
@@ -372,6 +373,103 @@ func runC05(c *Ctx, idx int, o *Obs) {
 			}
 			if allLens && D > 0 {
 				o.Check(false, "midpoint_refused", "RerootMidPoint refused a tree with all lengths present and a positive diameter: "+err.Error(), start)
+			}
+		}
+	}
+	// ---- the commands, on a file of several trees (each output tree against ITS input tree) --------
+	if idx%8 == 5 && lens == "all" && opts.Names == "simple" && strings.Count(start, ";") == 1 {
+		texts := []string{start}
+		for j := 0; j < 1+r.Intn(3); j++ {
+			m := gen.Tree(r, gen.Opts{N: gen.Size(r, 4, 30), Shape: gen.Pick(r, "random", "caterpillar", "balanced"), RootDeg: gen.Pick(r, 2, 3, 4), MultiP: gen.Pick(r, 0.0, 0.3),
+				Lens: "all", LenCls: gen.Pick(r, "len", "tie"), SupP: 0.5, SupCls: "unit", Names: "simple"})
+			texts = append(texts, m.Newick())
+		}
+		var reds []*reduction
+		for _, tx := range texts {
+			reds = append(reds, reduce(modelOf(mustParse(tx)), true))
+		}
+		f := tmpFile(c, "c05multi.nw", strings.Join(texts, "\n")+"\n")
+		inp := strings.Join(texts, "\n")
+		// an outgroup made of tips of the first tree (absent names are ignored in the other trees)
+		og := allClades(before.m)
+		var ogNames []string
+		if len(og) > 0 {
+			ogNames = og[r.Intn(len(og))]
+		}
+		cmds := [][]string{{"unroot", "-i", f}, {"rotate", "sort", "-i", f}, {"rotate", "rand", "-i", f, "--seed", "7"}}
+		positive := true // midpoint rooting is only defined when every tree has a positive diameter
+		for _, rd := range reds {
+			D := 0.0
+			for _, v := range rd.dist {
+				if v > D {
+					D = v
+				}
+			}
+			positive = positive && D > 0
+		}
+		if positive {
+			cmds = append(cmds, []string{"reroot", "midpoint", "-i", f})
+		}
+		if len(ogNames) > 0 && len(ogNames) < len(all) {
+			cmds = append(cmds, append([]string{"reroot", "outgroup", "-i", f}, ogNames...))
+		}
+		for _, cl := range cmds {
+			res := runCLI(c, "", cl...)
+			o.Ev("cli:"+cl[0]+" "+cl[1], 1)
+			what := "gotree " + cl[0] + " " + cl[1] + " on a file of " + fmt.Sprint(len(texts)) + " trees"
+			if cl[1] == "outgroup" {
+				// the outgroup only exists in the first tree: the command stops at the second one; judge the first line
+				if res.Panic || res.Signal {
+					o.Fail("cli_crash", what+": "+res.brief(), inp)
+				}
+				lines := strings.Split(strings.TrimSpace(res.Stdout), "\n")
+				if len(lines) >= 1 && lines[0] != "" {
+					if ct, err := parseNewick(lines[0]); o.Check(err == nil, "cli_output_unreadable", what+": "+fmt.Sprint(err), inp) {
+						d := sameTree(reds[0], reduce(modelOf(ct), true), false)
+						o.Check(d == "", "cli_outgroup", what+", tree 0: "+d, inp+" => "+Trunc(lines[0], 800), "op", "cli")
+					}
+				}
+				continue
+			}
+			if !o.Check(res.Exit == 0 && !res.Panic, "cli_failed", what+": "+res.brief(), inp) {
+				continue
+			}
+			lines := strings.Split(strings.TrimSpace(res.Stdout), "\n")
+			if !o.Check(len(lines) == len(texts), "cli_tree_count", fmt.Sprintf("%s: %d output trees", what, len(lines)), inp) {
+				continue
+			}
+			for i, ln := range lines {
+				ct, err := parseNewick(ln)
+				if !o.Check(err == nil, "cli_output_unreadable", fmt.Sprintf("%s, tree %d: %v", what, i, err), inp) {
+					break
+				}
+				after := reduce(modelOf(ct), true)
+				d := sameTree(reds[i], after, false)
+				if !o.Check(d == "", "cli_"+cl[1], fmt.Sprintf("%s, tree %d: %s", what, i, d), inp+" => "+Trunc(ln, 800), "op", "cli") {
+					break
+				}
+				switch cl[1] {
+				case "midpoint":
+					D := 0.0
+					for _, v := range reds[i].dist {
+						if v > D {
+							D = v
+						}
+					}
+					if D > 0 && o.Check(len(after.m.Root.Children) == 2, "midpoint_root_degree", fmt.Sprintf("%s, tree %d: root has %d children", what, i, len(after.m.Root.Children)), inp) {
+						rd := after.m.RootDist()
+						far := 0.0
+						for _, v := range rd {
+							if v > far {
+								far = v
+							}
+						}
+						o.Check(math.Abs(far-D/2) <= 1e-9*D+1e-12*reds[i].scale, "midpoint_not_halfway",
+							fmt.Sprintf("%s, tree %d: the farthest tip is at %v from the root, half of the longest path is %v", what, i, far, D/2), inp+" => "+Trunc(ln, 800), "op", "cli")
+					}
+				case "unroot":
+					o.Check(len(after.m.Root.Children) >= 3 || len(after.tx.Names) < 3, "cli_unroot_degree", fmt.Sprintf("%s, tree %d: root still has %d children", what, i, len(after.m.Root.Children)), inp)
+				}
 			}
 		}
 	}
